@@ -217,7 +217,7 @@ Section Obs.
        fix_excl := fix_excl c || N.eqb k 5; fix_dryinit := fix_dryinit c || N.eqb k 6;
        fix_ignore := fix_ignore c || N.eqb k 8; fix_implicit := fix_implicit c || N.eqb k 9;
        fix_shared := fix_shared c || N.eqb k 10; fix_own := fix_own c || N.eqb k 11;
-       fix_funny := fix_funny c || N.eqb k 12 |}.
+       fix_funny := fix_funny c || N.eqb k 12; fix_keep := fix_keep c || N.eqb k 13 |}.
   Definition active (k : N) (i : sinput) : bool :=
     negb (scase_obs_eqb (model_case cfg_current i) (model_case (with_fix k) i))
     || (i_parallel i
